@@ -247,6 +247,31 @@ def work(item):
         if N <= P['B_aniso_max']:
             for bits in range(1, 4**N):
                 one('aniso', [(bits >> i) & 1 for i in range(2 * N)], 0.99)
+    elif isinstance(mode, tuple) and mode[0] == 'D':
+        # very deep directed roots (time / space level 17 and more in one branch): every ORDERED pair of leaves (i, j) in the
+        # index range of this item carries the indicators (3, 2), all other leaves 0; theta = 0.9 marks exactly {i, j}, i first
+        lo, hi = mode[1], mode[2]
+        lv = [max(e[4], e[5]) for e in sorted(ref.leaves)]
+        # (the leaf order of the code under test is the order of `before` in run_call; indices here refer to that order, so the
+        # deep leaves are selected by level through the real mesh)
+        m_ = build(cfg, h)
+        lv = [max(e.levels) for e in m_.leaf_elements]
+        top = max(lv)
+        for i in range(lo, min(hi, N)):
+            if lv[i] < top - 4:
+                continue  # i ranges over the leaves of the five deepest levels, j over ALL leaves
+            for j in range(N):
+                if i == j:
+                    continue
+                for a_, b_ in ((3, 2), (2, 3)):
+                    v = [0] * N
+                    v[i], v[j] = a_, b_
+                    one('iso', v, 0.9)
+                    for ax_i in (0, 1):
+                        for ax_j in (0, 1):
+                            w = [0] * (2 * N)
+                            w[2 * i + ax_i], w[2 * j + ax_j] = a_, b_
+                            one('aniso', w, 0.9)
     elif mode == 'C':
         # two marking steps on the SAME mesh object: every subset first (isotropic, or anisotropic with other magnitudes), then all
         # singletons, the full set and 'every other leaf' (isotropic and anisotropic) - state left behind by the first call
@@ -325,16 +350,28 @@ def run(ctx):
         for h in hs:
             for mode in ('A', 'B', 'C'):
                 items.append((cfgname, h, mode))
+    # mode D: deep directed roots
+    from mc.meshmc import deep_histories, deep_end_histories, build_ref as _bref
+    deep_roots = [('UnitSquare', deep_histories('UnitSquare', 17)['t0']), ('UnitSquare', deep_end_histories('UnitSquare', 17)['xEnd'])]
+    if ctx.tier == 'thorough':
+        deep_roots += [('glued2x2', deep_histories('glued2x2', 20)['t0']), ('UnitSquare', deep_end_histories('UnitSquare', 18)['tEnd']),
+                       ('UnitSquare', deep_end_histories('UnitSquare', 17, 3)['staircase'])]
+    for cfgname, root in deep_roots:
+        Nd = len(_bref(CFGS[cfgname], root).leaves)
+        per.setdefault('deep_roots', []).append({'cfg': cfgname, 'root_len': len(root), 'leaves': Nd})
+        step = max(1, Nd // (2 * ctx.jobs))
+        for lo in range(0, Nd, step):
+            items.append((cfgname, root, ('D', lo, lo + step)))
     res = common.pmap(work, items, ctx.jobs, chunksize=1)
     ncalls = 0
     nout = 0
     classes = set()
     samples = []
-    by_mode = {'A': 0, 'B': 0, 'C': 0}
+    by_mode = {'A': 0, 'B': 0, 'C': 0, 'D': 0}
     for it, (viols, n, no, cl) in zip(items, res):
         ncalls += n
         nout += no
-        by_mode[it[2]] += n
+        by_mode[it[2] if isinstance(it[2], str) else it[2][0]] += n
         classes.update(map(tuple, cl))
         for tag, rep in viols:
             ctx.violation({'tag': tag, 'kind': rep['kind']},
